@@ -40,11 +40,11 @@ var extTable = map[string]ExtSpec{
 	"sort.Strings":  {Known: true, HavocArgs: true, NoPanic: true},
 	"context.Background": {Known: true, Pure: true, NonNil: true, NoPanic: true},
 	"(*sync.Mutex).Lock":   {Known: true, NoPanic: true},
-	"(*sync.Mutex).Unlock": {Known: true},
+	"(*sync.Mutex).Unlock": {Known: true, NoPanic: true}, // pairing with Lock is checked structurally (C11)
 	"(*sync.RWMutex).Lock":   {Known: true, NoPanic: true},
-	"(*sync.RWMutex).Unlock": {Known: true},
+	"(*sync.RWMutex).Unlock": {Known: true, NoPanic: true},
 	"(*sync.RWMutex).RLock":   {Known: true, NoPanic: true},
-	"(*sync.RWMutex).RUnlock": {Known: true},
+	"(*sync.RWMutex).RUnlock": {Known: true, NoPanic: true},
 	"(encoding/binary.bigEndian).Uint16":    {Known: true, Pure: true},
 	"(encoding/binary.bigEndian).PutUint16": {Known: true, HavocArgs: true},
 	"hash/fnv.New64a": {Known: true, NonNil: true, NoPanic: true},
